@@ -17,6 +17,12 @@ pub struct HNF(pub(crate) Vec<Vec<BigInt>>);
 impl HNF {
     /// Construct the sum module of the given two modules. The resulting module is returned as an HNF.
     pub fn union(a: &HNF, b: &HNF) -> HNF {
+        if a.0.is_empty() {
+            return b.clone();
+        }
+        if b.0.is_empty() {
+            return a.clone();
+        }
         assert_eq!(a.0[0].len(), b.0[0].len());
         let na = a.0.len();
         let nb = b.0.len();
